@@ -339,6 +339,55 @@ def r2_token_len(facts, rep):
     rep.floor("C12-R2", "Token constructions", n, 2)
 
 
+_R3_CTX = None
+
+
+def _r3_one(job):
+    """One abstract run of Lexer::next from (escape flag, first character atom) -> an obligation tuple."""
+    facts, ats, body = _R3_CTX
+    escape, first = job
+    dom = LexDomain(ats, facts=facts)
+    it = core.Interp(facts, dom, budget=400000)
+    store = {(0, 0): lexer_value(escape)}
+    store = dom.setlex(store, first, None)
+    key = "escape=%s:first=%s" % (escape, chars.describe(first))
+    rule = "C12-R4" if first == "EOF" else "C12-R3"
+    try:
+        outs = it.run(body, [Ref(0, 0)], store)
+    except core.Undecided as e:
+        return ("C12-R3", key, False, "undecided: %s" % e, None, 0)
+    bad = []
+    kinds = set()
+    for o in outs:
+        pos = it.read_ref(o.store, Ref(0, 0, (1,)))
+        if o.kind != "ret":
+            bad.append("%s %s at %s" % (o.kind, o.value, o.site))
+            continue
+        v = o.value
+        if first == "EOF":
+            if not (v == NONE and pos == P0):
+                bad.append("at end of input returns %r with pos %r" % (v, pos))
+            continue
+        if v == NONE:
+            bad.append("returns None although input remains")
+            continue
+        tok = v.field(0) if isinstance(v, Agg) and v.vname == "Some" else None
+        if not (isinstance(tok, Agg) and tok.path == "syntax::lexer::Token"):
+            bad.append("unrecognised result %r" % (v,))
+            continue
+        ln = tok.field(0)
+        kinds.add(repr(tok.field(1)))
+        k = pos.v[1] if isinstance(pos, Const) and isinstance(pos.v, tuple) and pos.v[0] == "pos" else None
+        if not k:
+            bad.append("returns a token although the lexer did not advance (pos %r)" % (pos,))
+        elif ln != LEN(k):
+            bad.append("returns a token with len %r after consuming %s character(s): len is not pos - start" % (
+                ln, "two or more" if k == 2 else k))
+    return (rule, key, not bad and bool(outs),
+            ("%d path(s), all advance" % len(outs)) if not bad else "; ".join(sorted(set(bad))[:3]),
+            {"escape": escape, "first": chars.describe(first), "paths": len(outs), "kinds": sorted(kinds)[:4]}, len(outs))
+
+
 def r3_progress(facts, rep, tier):
     rep.rule("C12-R3", "abstract run of Lexer::next / next_escape for every atom of the exact character partition "
                        "(atoms = intervals no comparison constant or character predicate of the lexer distinguishes) as "
@@ -361,50 +410,24 @@ def r3_progress(facts, rep, tier):
     if not rep.ob("C12-R3", "anchor:accessors", all(v and v != "ambiguous" for v in roles.values()),
                   "the lexer's primitive accessors, found by what they do: %s" % roles):
         return
-    for escape in (False, True):
-        for first in [lo for lo, hi in ats] + ["EOF"]:
-            dom = LexDomain(ats, facts=facts)
-            it = core.Interp(facts, dom, budget=400000)
-            store = {(0, 0): lexer_value(escape)}
-            store = dom.setlex(store, first, None)
-            key = "escape=%s:first=%s" % (escape, chars.describe(first))
-            try:
-                outs = it.run(body, [Ref(0, 0)], store)
-            except core.Undecided as e:
-                rep.ob("C12-R3", key, False, "undecided: %s" % e, body.site())
-                continue
-            rep.count("lexer paths", len(outs))
-            bad = []
-            kinds = set()
-            for o in outs:
-                pos = it.read_ref(o.store, Ref(0, 0, (1,)))
-                if o.kind != "ret":
-                    bad.append("%s %s at %s" % (o.kind, o.value, o.site))
-                    continue
-                v = o.value
-                if first == "EOF":
-                    if not (v == NONE and pos == P0):
-                        bad.append("at end of input returns %r with pos %r" % (v, pos))
-                    continue
-                if v == NONE:
-                    bad.append("returns None although input remains")
-                    continue
-                tok = v.field(0) if isinstance(v, Agg) and v.vname == "Some" else None
-                if not (isinstance(tok, Agg) and tok.path == "syntax::lexer::Token"):
-                    bad.append("unrecognised result %r" % (v,))
-                    continue
-                ln = tok.field(0)
-                kinds.add(repr(tok.field(1)))
-                k = pos.v[1] if isinstance(pos, Const) and isinstance(pos.v, tuple) and pos.v[0] == "pos" else None
-                if not k:
-                    bad.append("returns a token although the lexer did not advance (pos %r)" % (pos,))
-                elif ln != LEN(k):
-                    bad.append("returns a token with len %r after consuming %s character(s): len is not pos - start" % (
-                        ln, "two or more" if k == 2 else k))
-            rule = "C12-R4" if first == "EOF" else "C12-R3"
-            rep.ob(rule, key, not bad and bool(outs),
-                   ("%d path(s), all advance" % len(outs)) if not bad else "; ".join(sorted(set(bad))[:3]), body.site(),
-                   sample={"escape": escape, "first": chars.describe(first), "paths": len(outs), "kinds": sorted(kinds)[:4]})
+    jobs = [(escape, first) for escape in (False, True) for first in [lo for lo, hi in ats] + ["EOF"]]
+    global _R3_CTX
+    _R3_CTX = (facts, ats, body)
+    results = None
+    try:
+        import multiprocessing as mp
+        import os
+        n = min(12, os.cpu_count() or 1)
+        if n > 1 and len(jobs) > 8:
+            with mp.get_context("fork").Pool(n) as pool:
+                results = pool.map(_r3_one, jobs, chunksize=4)
+    except Exception:
+        results = None
+    if results is None:
+        results = [_r3_one(j) for j in jobs]
+    for rule, key, okk, detail, sample, npaths in results:
+        rep.count("lexer paths", npaths)
+        rep.ob(rule, key, okk, detail, body.site(), sample=sample)
     rep.floor("C12-R3", "character atoms", len(ats), 20)
 
 
